@@ -112,6 +112,11 @@ func (ex *Exec) decimalDigits(u *Term) []*Term {
 	if k > 1 {
 		ex.addAssume(f.Not(f.Eq(ds[0], Const('0', 8))))
 	}
+	if k == 20 {
+		// u < 2^64 < 2*10^19: the leading digit is 1 (this also rules out digit strings whose
+		// true value exceeds 2^64 and only equals u modulo 2^64)
+		ex.addAssume(f.Eq(ds[0], Const('1', 8)))
+	}
 	ex.addAssume(f.Eq(sum, u))
 	return ds
 }
